@@ -748,7 +748,26 @@ class Exec(ExprMixin, CallMixin):
         if old is not None:
             ex.setdefault("old", old)
         v = self._eval_spec_method(contract, inv, fr, ex)
-        self.oblige("loop." + label.split(".")[1], truthy(v), lineno, carries=False, label=label)
+        # `lemmas_inv<k>`: instances of separately proved lemmas, available ONLY to this invariant's init/preserve checks
+        lem = contract.methods.get("lemmas_" + inv.name)
+        pushed = 0
+        if lem is not None:
+            self.lemma_using = getattr(self, "lemma_using", 0) + 1
+            self.merge_depth += 1
+            saved_ctx = len(self.run.ctx)
+            try:
+                term = truthy(self._eval_spec_method(contract, lem, fr, ex))
+            finally:
+                self.lemma_using -= 1
+                self.merge_depth -= 1
+                del self.run.ctx[saved_ctx:]
+            self.run.ctx.append(term)
+            pushed = 1
+        try:
+            self.oblige("loop." + label.split(".")[1], truthy(v), lineno, carries=False, label=label)
+        finally:
+            if pushed:
+                self.run.ctx.pop()
 
     def _assume_spec(self, contract, fn_node, fr, extra):
         old = fr.lookup("__old__")
